@@ -22,7 +22,7 @@ static const EnvChoice ENVS[] = {
 
 static void set_env(int e) {
 #ifndef RX_NO_ENVALLOC
-	env::init(); env::S().reuse_small = ENVS[e].reuse_small; env::S().reuse_large = ENVS[e].reuse_large; env::S().reuse_maps = ENVS[e].reuse_large; env::S().fill = ENVS[e].fill;
+	env::init(); env::S().reuse_small = ENVS[e].reuse_small; env::S().reuse_large = ENVS[e].reuse_large; env::S().reuse_maps = ENVS[e].reuse_large; env::S().fill = ENVS[e].fill; env::S().hugepages = true;   // LARGE_PAGES flag sets: the harness answers MAP_HUGETLB
 #endif
 }
 
@@ -77,10 +77,18 @@ int main(int argc, char** argv) {
 		for (int f : flagsets) { jobs.push_back({ f, 0, depth - 1, true, 0, true }); jobs.push_back({ f, 0, depth - 1, true, 1, true }); }
 		for (int f : flagsets) for (int e : { 1, 3, 4, 5, 6, 7 }) if (e < nenv) jobs.push_back({ f, e, depth - 1, true, 0, false });
 		for (int f : flagsets) jobs.push_back({ f, 0, std::min(depth, 3), false, 0, false });
+#ifndef RX_NO_ENVALLOC
+		for (int f : flagsets) jobs.push_back({ f | RANDOMX_FLAG_LARGE_PAGES, 0, depth - 1, true, 0, false });   // LARGE_PAGES VM classes
+#endif
 	} else {   // quick: at most 16 explorations (one wave on 16 cores)
 		for (int f : flagsets) { jobs.push_back({ f, 0, depth, true, 0, false }); if (nenv > 1) jobs.push_back({ f, 2, depth, true, 0, false }); jobs.push_back({ f, 0, depth, true, 1, false }); }   // reuse-large-blocks, fresh; second root: two live caches with different keys
 		if (nenv > 1) jobs.push_back({ flagsets[0], 1, depth, true, 0, false });                                                                  // reuse-all on the first flag set
 		for (size_t i = 0; i < 2 && i < flagsets.size(); ++i) jobs.push_back({ flagsets[i], 0, std::min(depth, 3), false, 0, false });   // no state merging, depth 3: must give the same verdict
+		// second wave, one level less: the flag sets not in the first wave, and two LARGE_PAGES VM classes
+		for (auto& fs : rxh::vm_flagsets()) if (std::find(flagsets.begin(), flagsets.end(), fs.flags) == flagsets.end()) jobs.push_back({ fs.flags, 0, depth - 1, true, 0, false });
+#ifndef RX_NO_ENVALLOC
+		jobs.push_back({ RANDOMX_FLAG_JIT | RANDOMX_FLAG_LARGE_PAGES, 0, depth - 1, true, 0, false }); jobs.push_back({ RANDOMX_FLAG_FULL_MEM | RANDOMX_FLAG_HARD_AES | RANDOMX_FLAG_LARGE_PAGES, 0, depth - 1, true, 0, false });
+#endif
 	}
 	vf::Result total = vf::run_shards(args, (int)jobs.size(), [&](int shard) {
 		vf::Result R; const Job& j = jobs[shard];
@@ -94,7 +102,7 @@ int main(int argc, char** argv) {
 			visit(W.digest(), d); explore(d);
 			if (SH->nviol) break;
 		}
-		std::string cfg; for (auto& fs : rxh::vm_flagsets()) if (fs.flags == j.flags) cfg = fs.name;
+		std::string cfg; for (auto& fs : rxh::vm_flagsets()) if (fs.flags == (j.flags & ~RANDOMX_FLAG_LARGE_PAGES)) cfg = fs.name; if (j.flags & RANDOMX_FLAG_LARGE_PAGES) cfg += "+LARGE_PAGES";
 		R.n["states"] = SH->states; R.n["transitions"] = SH->transitions; R.n["hashes_checked"] = SH->hashes; R.n["merged_on_digest"] = SH->dedup_hits; R.n["explorations"] = 1;
 		R.mx["history_length"] = SH->max_depth_reached;
 		if (!j.dedup) { R.n["states_unmerged_runs"] = SH->states; R.n["states"] = 0; R.n["transitions_unmerged_runs"] = SH->transitions; R.n["transitions"] = 0; }
@@ -119,7 +127,7 @@ int main(int argc, char** argv) {
 		.set("evaluations", (unsigned long long)total.n["hashes_checked"]).set("distinct_nontrivial", (unsigned long long)total.n["states"])
 		.set("depth_bound", depth).set("exhaustive", !total.incomplete)
 		.set("rule", std::string("profile ") + RX_PROFILE + ": for each explored VM flag set and each environment answer (address-reuse policy x fill pattern of fresh memory): all histories of documented-contract operations (alloc/init/release cache x2, alloc/init/release dataset, create/destroy VM, vm_set_cache, vm_set_dataset, v1<->v2, hash, first/next/last) up to the depth bound after a fixed setup, executed on the real objects (states cloned by fork, deduplicated on a canonical concrete digest, depth-aware); every digest returned anywhere must equal the fresh-object digest; a second search without merging (depth 3) must agree. states/transitions are summed over explorations; every transition is an execution of the implementation");
-	ev.assumptions = { "two caches, one VM per flag set at a time, key/input alphabets of 2 (quick) or 4/3 (thorough) elements; histories longer than the bound are covered only through state merging",
+	ev.assumptions = { "quick: four flag sets at the full depth, the other eight and two LARGE_PAGES classes one level less; two caches, one VM per flag set at a time, key/input alphabets of 2 (quick) or 4/3 (thorough) elements; histories longer than the bound are covered only through state merging",
 		"contract guards of DESIGN.md appendix B decide which operations are enabled" };
 	return vf::finish(args, total, ev, true, true);
 }
